@@ -94,12 +94,15 @@ def traceLoop (k : Kind) : Nat → Local → List String → List String → Lis
       let act := th.next
       match act with
       | .none => acc ++ ["stuck"]
-      | .load _ _ =>
+      | .load l _ =>
         match script with
         | [] => acc ++ ["want:" ++ fmtAct act]
         | tok :: rest =>
           match parseVal tok with
-          | some v => traceLoop k fuel (th.feedLoad chk v) rest (acc ++ [fmtAct act ++ "=" ++ fmtVal v])
+          | some v =>
+            -- voucher bits are only fed to loads of a voucher word (their parity / order is unknown here)
+            if (match l with | .v _ => false | _ => true) && decide (two64 ≤ v) then acc ++ ["bad-script:" ++ fmtAct act] else
+            traceLoop k fuel (th.feedLoad chk v) rest (acc ++ [fmtAct act ++ "=" ++ fmtVal v])
           | none => acc ++ ["bad-script:" ++ fmtAct act]
       | .lock =>
         match script with
@@ -181,7 +184,7 @@ def step (s : St) : List String → St × List String
     | some (k, op, [script]) =>
       let sc := parseScript script
       let th : Local := ({} : Local).start op
-      (s, [";".intercalate (traceLoop k (sc.length + 2) th sc [])])
+      (s, [";".intercalate (traceLoop k (4 * sc.length + 16) th sc [])])
     | _ => (s, ["bad-op"])
   | ["machine", "sc"] => ({ initSt with mode := .sc }, ["ok"])
   | ["machine", "ra"] => ({ initSt with mode := .ra }, ["ok"])
